@@ -33,6 +33,7 @@ func main() {
 }
 
 func mustLoad(repo string) *Prog {
+	memWatch()
 	t0 := time.Now()
 	P, err := loadProg(repo)
 	if err != nil {
